@@ -228,7 +228,7 @@ int Message::send() {
 static constexpr size_t LINE_BUFFER_SIZE = 4 * 1024;
 
 int Message::prepare_body_read_stream() {
-    if (headers.chunked()) {
+    if (headers.chunked() && m_verb != Verb::HEAD) {
         if (headers.space_remain() < LINE_BUFFER_SIZE)
             LOG_ERROR_RETURN(ENOBUFS, -1, "no buffer");
         m_body_stream.reset(new_chunked_body_read_stream(m_stream, partial_body()));
